@@ -26,7 +26,8 @@ template<class Graph, class WeightMap, class CycleOutputIterator>
 typename boost::property_traits<WeightMap>::value_type approx_mcb_sva_signed_tbb(
         const Graph &g, const WeightMap &weight, std::size_t k,
         CycleOutputIterator out) {
-    typedef typename parmcb::detail::mcb_sva_signed_tbb<Graph,WeightMap,CycleOutputIterator> ExactAlgo;
+    typedef typename boost::graph_traits<Graph>::edge_descriptor Edge;
+    typedef typename parmcb::detail::mcb_sva_signed_tbb<Graph,WeightMap,std::back_insert_iterator<std::list<std::list<Edge>>>> ExactAlgo;
 
     parmcb::detail::BaseApproxSpannerAlgorithm<Graph, WeightMap, ExactAlgo, true> algo(g, weight, boost::get(boost::vertex_index, g), k);
     return algo.run(out);
